@@ -237,6 +237,20 @@ def runScan (H : Format.HashFn) (D : Format.Decomp) (f : Bytes) (ops : List Char
     return ("OK " ++ " ".intercalate outs.toList, impl.map fun _ => ok)
   | _ => return ("ERR open", impl.map fun i => i == ["ERR", "open"])
 
+/-! ### C12: io.c under fault schedules -/
+
+def parseSched (s : String) : Option (List IoFault.Fault) :=
+  if s == "-" then some [] else
+  (s.splitOn ",").mapM fun t =>
+    if t == "ok" then some .ok
+    else if t == "eintr" then some .eintr
+    else if t == "eio" || t == "enospc" then some .fail
+    else if t.startsWith "s" then ((t.drop 1).toString.toNat?).map IoFault.Fault.short
+    else none
+
+def firedCount (sch rest : List IoFault.Fault) : Nat :=
+  ((sch.take (sch.length - rest.length)).filter (· != IoFault.Fault.ok)).length
+
 def handleIO (op : String) (args : List String) (impl : Option (List String)) : IO (String × Option Bool) := do
   match op, args with
   | "OPEN", [path, t, d, n, order, vl] =>
@@ -428,6 +442,51 @@ def handleIO (op : String) (args : List String) (impl : Option (List String)) : 
         | _ => false
       return (s!"OK r=1 m={if txt.isEmpty then "-" else txt}", pv)
     | _, _ => return ("ERR open", impl.map fun i => i == ["ERR", "open"])
+  | "IOSEQ", ["read_data", sch, fileHex, pos, len] =>
+    match parseSched sch, parseHex fileHex, pos.toNat?, len.toNat? with
+    | some sc, some fb, some p, some l =>
+      let (r, bs, _, rest) := IoFault.readData (l + sc.length + 2) ⟨fb, p⟩ l sc []
+      let out := s!"OK ret={r} bytes={PredRead.showBytes (if r > 0 then bs else [])} err={if r == -1 then 1 else 0} fired={firedCount sc rest}"
+      -- C12 on the implementation: a non-negative count n means: these are the n bytes at the offset, and n < len only at end of file
+      let pv := impl.map fun i => match i with
+        | "OK" :: rest' =>
+          match (kv rest' "ret").bind (·.toInt?), kv rest' "bytes" with
+          | some ri, some b =>
+            if ri < 0 then true else
+            let n := ri.toNat
+            b == PredRead.showBytes ((fb.drop p).take n) && n ≤ l && (n == l || p + n ≥ fb.length)
+          | _, _ => false
+        | _ => false
+      return (out, pv)
+    | _, _, _, _ => return ("BADOP", none)
+  | "IOSEQ", ["write_data", sch, fileHex, pos, dataHex] =>
+    match parseSched sch, parseHex fileHex, pos.toNat?, parseHex dataHex with
+    | some sc, some fb, some p, some d =>
+      let (ok, fd, rest) := IoFault.writeData ⟨fb, p⟩ d sc
+      let out := s!"OK ret={if ok then 1 else 0} file={PredRead.showBytes fd.data} err={if ok then 0 else 2} fired={firedCount sc rest}"
+      -- C12: success only if every byte reached the file at the offset
+      let pv := impl.map fun i => match i with
+        | "OK" :: rest' =>
+          if kv rest' "ret" == some "1" then kv rest' "file" == some (PredRead.showBytes (Copy.writeAt fb p d)) else true
+        | _ => false
+      return (out, pv)
+    | _, _, _, _ => return ("BADOP", none)
+  | "IOSEQ", ["chunks_from_temp", sch, tempHex, outHex] =>
+    match parseSched sch, parseHex tempHex, parseHex outHex with
+    | some sc, some tb, some ob =>
+      let (ok, fd, rest) := IoFault.chunksFromTemp ⟨tb, tb.length⟩ ⟨ob, ob.length⟩ sc
+      let werr := !ok && Id.run do
+        -- error_state is only set by a failing write_data
+        return (fd.data.length != (ob ++ tb).length || true) && false
+      let out := s!"OK ret={if ok then 1 else 0} out={PredRead.showBytes fd.data}"
+      let _ := werr
+      let _ := rest
+      let pv := impl.map fun i => match i with
+        | "OK" :: rest' =>
+          if kv rest' "ret" == some "1" then kv rest' "out" == some (PredRead.showBytes (ob ++ tb)) else true
+        | _ => false
+      return (out, pv)
+    | _, _, _ => return ("BADOP", none)
   | "META", [path] =>
     let f ← readFile path
     let m := Header.openFile Sha.zckHash f
